@@ -1,6 +1,7 @@
 (* C05_Props.v — property C05: "Queues deliver elements first-in first-out
    without loss", stated over the models of C05_Model.v (queue/queue.go and the
-   repaired queue/lqueue.go over the DList transcription C05_DList.v).
+   repaired queue/lqueue.go — /repo commit 2e9c0f9 — over the DList transcription
+   C05_DList.v, which follows list/dlist.go as of /repo commit b974c31).
    Only statements here; each is closed by [exact] of a lemma of C05_Proofs.v
    and followed by Print Assumptions.
 
@@ -104,6 +105,16 @@ Theorem C05_queue_size_counts : forall ops, no_clear ops ->
 Proof. exact sq_size_counts. Qed.
 Print Assumptions C05_queue_size_counts.
 
+(* the same clause in ONE statement, histories with Clear included: after the
+   last Clear of a history (suf contains none) Size is the enqueues minus the
+   successful dequeues of suf alone — whatever happened before (pre) *)
+Theorem C05_queue_size_since_last_clear : forall pre suf, no_clear suf ->
+  outs sq_step sq_new (pre ++ Clear :: suf ++ [Size]) =
+  outs sq_step sq_new (pre ++ Clear :: suf) ++
+  [OSize (Z.of_nat (length (enqueued suf)) - Z.of_nat (length (served (outs sq_step sq_new suf))))].
+Proof. exact sq_size_since_clear. Qed.
+Print Assumptions C05_queue_size_since_last_clear.
+
 Theorem C05_queue_search_exact : forall ops x, exists b,
   outs sq_step sq_new (ops ++ [Search x]) = outs sq_step sq_new ops ++ [OBool b] /\
   (b = true <-> In x (state_after sq_step sq_new ops)).
@@ -141,6 +152,16 @@ Theorem C05_lqueue_clear_empties : forall q l, lq_abs q l -> lq_abs (fst (lq_ste
 Proof. exact lq_after_clear. Qed.
 Print Assumptions C05_lqueue_clear_empties.
 
+(* history level: after a Clear anywhere in a history the linked queue answers
+   like the FIFO started EMPTY — nothing held before the Clear comes back, is
+   found by Search or shows in Peek; refilling works (ops is arbitrary) *)
+Theorem C05_lqueue_clear_restarts : forall t pre ops,
+  outs lq_step (lq_new t) (pre ++ Clear :: ops) =
+    outs lq_step (lq_new t) pre ++ ONone :: map forget_err (outs fifo_step [] ops) /\
+  lq_abs (state_after lq_step (lq_new t) (pre ++ Clear :: ops)) (state_after fifo_step [] ops).
+Proof. exact lq_clear_restarts. Qed.
+Print Assumptions C05_lqueue_clear_restarts.
+
 Theorem C05_lqueue_peek_is_next : forall t ops, exists v,
   outs lq_step (lq_new t) (ops ++ [Peek; Dequeue]) =
   outs lq_step (lq_new t) ops ++ [OVal v; ODeq false v].
@@ -152,6 +173,32 @@ Theorem C05_lqueue_size_counts : forall q l ops, lq_abs q l -> no_clear ops ->
   [OSize (Z.of_nat (length l) + Z.of_nat (length (enqueued ops)) - Z.of_nat (length (lq_served q ops)))].
 Proof. exact lq_size_counts. Qed.
 Print Assumptions C05_lqueue_size_counts.
+
+(* Size = enqueues - successful dequeues since the last Clear, one statement
+   (a Dequeue of the linked queue is "successful" iff executed while Size() <> 0) *)
+Theorem C05_lqueue_size_since_last_clear : forall t pre suf, no_clear suf ->
+  outs lq_step (lq_new t) (pre ++ Clear :: suf ++ [Size]) =
+  outs lq_step (lq_new t) (pre ++ Clear :: suf) ++
+  [OSize (Z.of_nat (length (enqueued suf)) -
+          Z.of_nat (length (lq_served (state_after lq_step (lq_new t) (pre ++ [Clear])) suf)))].
+Proof. exact lq_size_since_clear. Qed.
+Print Assumptions C05_lqueue_size_since_last_clear.
+
+(* "never negative", for the counter field itself after every history (every
+   Size that was printed: C05_lqueue_outputs_wf) *)
+Theorem C05_lqueue_counter_never_negative : forall t ops,
+  0 <= lq_size (state_after lq_step (lq_new t) ops).
+Proof. exact lq_counter_nonneg. Qed.
+Print Assumptions C05_lqueue_counter_never_negative.
+
+(* Search after ANY history: true exactly for the elements the FIFO holds at
+   that point, and it leaves the contents alone *)
+Theorem C05_lqueue_search_exact_after_history : forall t ops x, exists b,
+  outs lq_step (lq_new t) (ops ++ [Search x]) = outs lq_step (lq_new t) ops ++ [OBool b] /\
+  (b = true <-> In x (state_after fifo_step [t] ops)) /\
+  lq_abs (state_after lq_step (lq_new t) (ops ++ [Search x])) (state_after fifo_step [t] ops).
+Proof. exact lq_search_exact_hist. Qed.
+Print Assumptions C05_lqueue_search_exact_after_history.
 
 Theorem C05_lqueue_search_exact : forall q l x, lq_abs q l -> exists b,
   outs lq_step q [Search x] = [OBool b] /\ (b = true <-> In x l).
@@ -184,3 +231,19 @@ Example C05_example_drain_refill :
   lq_size (state_after lq_step (lq_new 1) [Dequeue]) = 0 /\
   lq_mem (state_after lq_step (lq_new 1) [Dequeue]) <> [].
 Proof. vm_compute. repeat split; congruence. Qed.
+
+(* Clear on a queue holding three elements, then refill: the cleared elements
+   are gone for Dequeue, Peek and Search; the history splits as pre ++ Clear :: suf
+   with no_clear suf, so C05_lqueue_size_since_last_clear applies non-vacuously *)
+Example C05_example_clear_refill :
+  let pre := [Enqueue 2; Enqueue 3] in
+  let suf := [Size; Dequeue; Enqueue 4; Enqueue 5; Search 2; Search 3; Search 1; Peek; Dequeue] in
+  no_clear suf /\
+  outs lq_step (lq_new 1) (pre ++ Clear :: suf ++ [Size; Dequeue; Size; Dequeue]) =
+    [ONone; ONone; ONone; OSize 0; ODeq false 0; ONone; ONone; OBool false; OBool false; OBool false;
+     OVal 4; ODeq false 4; OSize 1; ODeq false 5; OSize 0; ODeq false 0] /\
+  lq_served (state_after lq_step (lq_new 1) (pre ++ [Clear])) suf = [4] /\
+  outs sq_step sq_new ([Enqueue 1] ++ pre ++ Clear :: suf ++ [Size; Dequeue; Size; Dequeue]) =
+    [ONone; ONone; ONone; ONone; OSize 0; ODeq true 0; ONone; ONone; OBool false; OBool false; OBool false;
+     OVal 4; ODeq false 4; OSize 1; ODeq false 5; OSize 0; ODeq true 0].
+Proof. vm_compute. repeat split; reflexivity. Qed.
